@@ -375,7 +375,10 @@ def _(p):
     from formulaic.transforms import TRANSFORMS
 
     f = TRANSFORMS["cc" if p["cyclic"] else "cr"]
-    out = f(numpy.array(p["train"]), df=p["df"], constraints="center", _state={})
+    kw = {}
+    if p.get("mode"):
+        kw = dict(extrapolation=p["mode"], lower_bound=p["bounds"][0], upper_bound=p["bounds"][1])
+    out = f(numpy.array(p["train"]), df=p["df"], constraints="center", _state={}, **kw)
     m = numpy.stack([out[k] for k in out], axis=1)
     if m.shape[1] != p["df"]:
         return f"wrong-column-count: {m.shape[1]} columns for df={p['df']}"
